@@ -1019,3 +1019,151 @@ def extra_c07(ck: Check):
             'longer shows under the forced interleaving (model follows a '
             'different code)', {'broken': 'C07_fine_double_wake_witness',
                                 'obs': r}, found_input=False)
+
+
+# ------------------------------------------- exhaustive delivery orders (small)
+SMALL_TREES = {
+    'submit-await': ((), (('s', 0), ('a', 0))),
+    'map2-await': ((), (('m', (0, 0)), ('a', 0))),
+    'two-submits-reversed': ((), (('s', 0), ('s', 0), ('a', 1), ('a', 0))),
+    'map2-next-next': ((), (('m', (0, 0)), ('n', 0), ('n', 0))),
+    'submit-cancel': ((), (('s', 0), ('c', 0))),
+    'grandchild-cancel': ((), (('s', 0), ('a', 0)), (('s', 1), ('c', 0))),
+}
+
+
+def small_scenarios(which='all'):
+    out = []
+    for name, table in SMALL_TREES.items():
+        root = len(table) - 1
+        for kind in ('attached', 'detached'):
+            for nw in (1, 2):
+                for script in ([('submit', root), ('result', 0)],
+                               [('submit', root), ('cancel', 0)]):
+                    if kind == 'attached' and script[1][0] == 'cancel' \
+                            and name not in ('submit-await',):
+                        continue
+                    out.append((f'{name}/{kind}{nw}/{script[1][0]}',
+                                {'topo': {'kind': kind, 'workers': nw},
+                                 'table': table, 'clients': [script]}))
+    if which == 'quick':
+        keep = ('submit-await/detached1/result', 'submit-cancel/detached1/result',
+                'submit-await/detached1/cancel')
+        out = [x for x in out if x[0] in keep]
+    return out
+
+
+def _global_key(sim, rec):
+    parts = [rec.s_state(n) for n in sim.nodes if sim.nodes[n].kind != 'C']
+    for (a, b), q in sorted(sim.chan.items()):
+        parts.append(f'{a}>{b}:' + '|'.join(rec.s_msg(a, b, m) for m in q))
+    for n in sim.nodes.values():
+        if n.kind == 'C':
+            parts.append(f'{n.name}:{n.pc}:{n.pending and n.pending[:2]}:'
+                         f'{n.alive}:{len(n.conns["S"].inbox)}')
+        elif n.kind == 'W':
+            parts.append(f'{n.name}:{n.in_dead}')
+    return hashlib.sha1('\n'.join(parts).encode()).hexdigest()
+
+
+def exhaustive(scenario, seed, limit):
+    """All schedules of a small scenario (depth-first over schedule prefixes,
+    re-executed on fresh real objects; prefixes leading to an already visited
+    global state are pruned).  Oracles run at every quiescent state and after
+    every transition."""
+    from harness import runtime_sim as rs
+    from harness import runtime_model as rm
+    seen = set()
+    stack = [[]]
+    stats = {'states': 0, 'terminal': 0, 'replays': 0, 'truncated': False,
+             'max_depth': 0}
+    verdicts = {}
+    while stack:
+        if stats['states'] >= limit:
+            stats['truncated'] = True
+            break
+        prefix = stack.pop()
+        random.seed(seed)
+        sim = rs.Sim(scenario, seed=seed)
+        V = Verdicts()
+        st = new_state()
+        rec = rm.Recorder(sim, scenario)
+        sim.run(schedule=prefix, max_steps=len(prefix) + 1,
+                after=lambda s, r: check_step(s, r, V, st))
+        stats['replays'] += 1
+        key = _global_key(sim, rec)
+        en = sim.enabled()
+        if key in seen:
+            sim.dispose()
+            continue
+        seen.add(key)
+        stats['states'] += 1
+        stats['max_depth'] = max(stats['max_depth'], len(prefix))
+        if not en:
+            stats['terminal'] += 1
+            evaluate(sim, True, st, V)
+        for (p, sig, what, d) in V.items:
+            verdicts.setdefault((p, sig), (what, list(prefix)))
+        sim.dispose()
+        for tr in reversed(en):
+            stack.append(prefix + [list(tr)])
+    return stats, verdicts
+
+
+def _exh_job(args):
+    name, sc, seed, limit = args
+    import warnings
+    warnings.simplefilter('ignore')
+    stats, verdicts = exhaustive(sc, seed, limit)
+    return name, sc, seed, stats, [
+        (p, sig, what, pre) for (p, sig), (what, pre) in verdicts.items()]
+
+
+def run_exhaustive(seed: int, tier: str) -> dict:
+    cdir = VERIF / '.cache'
+    cdir.mkdir(exist_ok=True)
+    cf = cdir / f'rtx-{code_key(seed, tier)}.json'
+    if cf.exists() and not os.environ.get('VERIF_NOCACHE'):
+        try:
+            return json.loads(cf.read_text())
+        except Exception:
+            pass
+    import multiprocessing as mp
+    scs = small_scenarios('all' if tier == 'thorough' else 'quick')
+    limit = 6000 if tier == 'thorough' else 1500
+    jobs = [(name, sc, 11 + seed, limit) for name, sc in scs]
+    if tier == 'thorough':
+        jobs += [(name + '#seed2', sc, 12 + seed, limit) for name, sc in scs
+                 if sc['topo']['workers'] == 2]
+    with mp.get_context('fork').Pool(min(16, os.cpu_count() or 1)) as pool:
+        res = pool.map(_exh_job, jobs, chunksize=1)
+    out = {'scenarios': {}, 'verdicts': {}}
+    for name, sc, sd, stats, verd in res:
+        out['scenarios'][name] = stats
+        for (p, sig, what, pre) in verd:
+            out['verdicts'].setdefault(f'{p}|{sig}', {
+                'prop': p, 'sig': sig, 'what': what,
+                'replay': {'scenario': sc, 'run_seed': sd, 'schedule': pre,
+                           'exhaustive': name}})
+    cf.write_text(json.dumps(out, default=str))
+    return out
+
+
+def report_exhaustive(ck: Check, prop: str):
+    ex = run_exhaustive(ck.seed, ck.tier)
+    tot = sum(s['states'] for s in ex['scenarios'].values())
+    ck.coverage['exhaustive'] = all(
+        not s['truncated'] for s in ex['scenarios'].values())
+    ck.coverage['exhaustive_space'] = (
+        f'all schedules (every delivery order, worker step and client call '
+        f'interleaving; global states deduplicated) of '
+        f'{len(ex["scenarios"])} smallest scenarios: {tot} distinct global '
+        f'states, ' + ', '.join(
+            f'{k}={v["states"]}{"(truncated)" if v["truncated"] else ""}'
+            for k, v in sorted(ex['scenarios'].items())))
+    ck.coverage['evaluations'] += tot
+    for k, v in sorted(ex['verdicts'].items()):
+        if v['prop'] == prop:
+            ck.violation(v['sig'], v['what'] + f' [exhaustive: '
+                         f'{v["replay"]["exhaustive"]}]', v['replay'],
+                         found_input=True)
